@@ -47,13 +47,35 @@ let cmd_dict (tk : string list) : bool =
        end else pr "load %s %s NULL\n" name how
      | None -> pr "SKIP load\n"); true
   | ["free"; d] -> st.dicts <- List.remove_assoc d st.dicts; pr "free %s\n" d; true
-  | "q" :: d :: op :: rest ->
+  | "ilv" :: d :: rest ->
     (match List.assoc_opt d st.dicts with
-     | None -> pr "q %s %s NODICT\n" d op
+     | None -> pr "SKIP ilv\n"
+     | Some info ->
+       let s = st.strings in
+       pr "ilv %s =" d;
+       let rec go = function
+         | op :: arg :: tl ->
+           let p = bytes_of_hex arg in
+           let ids l = pr " [ids"; List.iter (fun i -> pr " %s" (dec_of_n i)) l; pr "]" in
+           let strs l = if l = [] && op <> "extractTable" then pr " [NULL]" else begin pr " [strs"; List.iter (fun x -> pr "%s" (str_out x)) l; pr "]" end in
+           (match op with
+            | "locatePrefix" -> if List.mem info.kind prefix_kinds then ids (spec_prefix_ids s p) else pr " [NULL]"
+            | "locateSubstr" -> if substr_supported info then ids (spec_substr_ids s p) else pr " [NULL]"
+            | "extractPrefix" -> if List.mem info.kind prefix_kinds then strs (spec_prefix_strs s p) else pr " [NULL]"
+            | "extractSubstr" -> if substr_supported info then strs (spec_substr_strs s p) else pr " [NULL]"
+            | "extractTable" -> if List.mem info.kind table_kinds then strs (spec_table s) else pr " [NULL]"
+            | _ -> pr " [BADOP]");
+           go tl
+         | _ -> () in
+       go rest; pr "\n"); true
+  | ("q" | "uq") :: d :: op :: rest ->
+    let qc = List.hd tk in
+    (match List.assoc_opt d st.dicts with
+     | None -> pr "%s %s %s NODICT\n" qc d op
      | Some info ->
        let arg = match rest with a :: _ -> a | [] -> "" in
        let s = st.strings in
-       pr "q %s %s %s =" d op arg;
+       pr "%s %s %s %s =" qc d op arg;
        (match op with
         | "numElements" -> pr " %s\n" (dec_of_n (spec_elements s))
         | "maxLength" ->
